@@ -116,6 +116,38 @@ impl ShimReplace<char> for str {
     #[verifier::external_body]
     fn shim_replace(&self, from: char, to: &str) -> (r: String) ensures r@ == str_replace_char(self@, from, to@) { self.replace(from, to) }
 }
+// str::{strip_prefix, strip_suffix, trim_start_matches, trim_end_matches, starts_with, ends_with} are generic over Pattern too:
+// stand-ins whose results are uninterpreted functions of the inputs (never the identity)
+pub uninterp spec fn str_strip(s: Seq<char>, pat: Seq<char>, side: int) -> Option<Seq<char>>;
+pub uninterp spec fn str_trim_matches(s: Seq<char>, pat: Seq<char>, side: int) -> Seq<char>;
+pub uninterp spec fn str_has(s: Seq<char>, pat: Seq<char>, side: int) -> bool;
+pub trait ShimPat { spec fn pat_view(&self) -> Seq<char>; }
+impl<'a> ShimPat for &'a str { open spec fn pat_view(&self) -> Seq<char> { (*self)@ } }
+impl ShimPat for char { open spec fn pat_view(&self) -> Seq<char> { seq![*self] } }
+pub trait ShimStrOps {
+    fn shim_strip_prefix<'b, P: ShimPat>(&'b self, p: P) -> Option<&'b str>;
+    fn shim_strip_suffix<'b, P: ShimPat>(&'b self, p: P) -> Option<&'b str>;
+    fn shim_trim_start_matches<'b, P: ShimPat>(&'b self, p: P) -> &'b str;
+    fn shim_trim_end_matches<'b, P: ShimPat>(&'b self, p: P) -> &'b str;
+    fn shim_starts_with<P: ShimPat>(&self, p: P) -> bool;
+    fn shim_ends_with<P: ShimPat>(&self, p: P) -> bool;
+}
+impl ShimStrOps for str {
+    #[verifier::external_body]
+    fn shim_strip_prefix<'b, P: ShimPat>(&'b self, p: P) -> (r: Option<&'b str>)
+        ensures (r is Some) == (str_strip(self@, p.pat_view(), 0) is Some), r is Some ==> r->0@ == str_strip(self@, p.pat_view(), 0)->0 { unimplemented!() }
+    #[verifier::external_body]
+    fn shim_strip_suffix<'b, P: ShimPat>(&'b self, p: P) -> (r: Option<&'b str>)
+        ensures (r is Some) == (str_strip(self@, p.pat_view(), 1) is Some), r is Some ==> r->0@ == str_strip(self@, p.pat_view(), 1)->0 { unimplemented!() }
+    #[verifier::external_body]
+    fn shim_trim_start_matches<'b, P: ShimPat>(&'b self, p: P) -> (r: &'b str) ensures r@ == str_trim_matches(self@, p.pat_view(), 0) { unimplemented!() }
+    #[verifier::external_body]
+    fn shim_trim_end_matches<'b, P: ShimPat>(&'b self, p: P) -> (r: &'b str) ensures r@ == str_trim_matches(self@, p.pat_view(), 1) { unimplemented!() }
+    #[verifier::external_body]
+    fn shim_starts_with<P: ShimPat>(&self, p: P) -> (r: bool) ensures r == str_has(self@, p.pat_view(), 0) { unimplemented!() }
+    #[verifier::external_body]
+    fn shim_ends_with<P: ShimPat>(&self, p: P) -> (r: bool) ensures r == str_has(self@, p.pat_view(), 1) { unimplemented!() }
+}
 pub uninterp spec fn utf8_encode(s: Seq<char>) -> Seq<u8>;
 pub assume_specification[ String::as_bytes ](s: &String) -> (r: &[u8])
     ensures r@ == utf8_encode(s@);
